@@ -8,6 +8,7 @@
 From Coq Require Export String Uint63.
 From Coq Require Import Ascii ZArith.
 From FB Require Export C07.Model C07.Spec C07.Tree C07.BridgeDefs Base.Run.
+From FB Require X27.Tr C02.Class.
 
 (* Strings of a case are written as Coq string literals (UTF-8) — Coq reads those far faster than
    lists of numerals — and decoded to code points here. *)
@@ -386,6 +387,18 @@ Definition class_t : rty := TName "ClassFile".
 (* the tree handed to remap_class is a well-typed class; the interpreter of the regenerated table
    computes the tree remap_class returned; and when the class has nothing at the positions of the
    known findings, so does the specification *)
+(* the translation X27.Tr.tr against the implementation: when the tree remap_class returned lies inside the part [tr] covers,
+   C02's model of duke::write_class applied to [tr] of it yields, byte for byte, what duke::write_class wrote *)
+Definition tr_written_ok (vo : val) (wr : option (list N * list (list Z))) : bool :=
+  match wr, X27.Tr.tr vo with
+  | Some (b, _), Some t =>
+      match C02.Class.write_class_aux t with
+      | C02.Class.WOK (b', _) => list_eqb N.eqb b' b
+      | _ => false
+      end
+  | _, _ => true
+  end.
+
 Definition check_tree (R : remapper) (tin : dbg) (tout : res dbg) (wr : option (list N * list (list Z))) : bool :=
   match of_dbg type_defs class_t tin with
   | Ok vi =>
@@ -395,7 +408,7 @@ Definition check_tree (R : remapper) (tin : dbg) (tout : res dbg) (wr : option (
       | Ok dout =>
           match of_dbg type_defs class_t dout with
           | Ok vo =>
-              res_eqb val_eqb (remap_val gen_table R None class_t vi) (Ok vo) &&
+              res_eqb val_eqb (remap_val gen_table R None class_t vi) (Ok vo) && tr_written_ok vo wr &&
               (if clean gen_table known_row vi
                then res_eqb val_eqb (spec_val type_defs RTr R None class_t vi) (Ok vo) && same_shape vi vo
                else true)
